@@ -85,8 +85,22 @@ func extractSubFacts(p *core.Prog) (*subFacts, string) {
 			}
 		}
 	}
+	// (the list of types may be ranged over in the function that calls the subject builder)
+	usesBuilder := map[*ssa.Function]bool{}
+	for fn2 := range buildsSubject {
+		usesBuilder[fn2] = true
+	}
 	for _, b := range blocks {
-		if !buildsSubject[b.Parent()] {
+		for _, in := range b.Instrs {
+			if c, ok := in.(ssa.CallInstruction); ok {
+				if cal := c.Common().StaticCallee(); cal != nil && buildsSubject[cal] {
+					usesBuilder[b.Parent()] = true
+				}
+			}
+		}
+	}
+	for _, b := range blocks {
+		if !usesBuilder[b.Parent()] {
 			continue
 		}
 		for _, in := range b.Instrs {
@@ -101,6 +115,32 @@ func extractSubFacts(p *core.Prog) (*subFacts, string) {
 			al, ok := ia.X.(*ssa.Alloc)
 			if !ok || !strings.Contains(al.Comment, "slicelit") {
 				continue
+			}
+			if !buildsSubject[b.Parent()] {
+				// a list in a caller of the subject builder counts only if its elements are what
+				// the builder is handed
+				feeds := false
+				for _, c := range core.Calls(b.Parent()) {
+					if cal := c.Common().StaticCallee(); cal == nil || !buildsSubject[cal] {
+						continue
+					}
+					for _, a := range c.Common().Args {
+						if u, ok := core.Strip(a).(*ssa.UnOp); ok {
+							if ia2, ok := u.X.(*ssa.IndexAddr); ok {
+								base := ia2.X
+								if sl, ok := base.(*ssa.Slice); ok {
+									base = sl.X
+								}
+								if base == ssa.Value(al) {
+									feeds = true
+								}
+							}
+						}
+					}
+				}
+				if !feeds {
+					continue
+				}
 			}
 			if s, ok := core.ConstString(st.Val); ok {
 				sf.resTypes = append(sf.resTypes, s)
@@ -479,7 +519,27 @@ func c05(r *core.Run) {
 					continue
 				}
 				ci := core.Cond(iff.Cond)
-				if ci.Kind != "nilcmp" || !(ci.X == sv || sameCellLoadOfCall(ci.X, site.(ssa.CallInstruction))) {
+				viaHelper := false
+				if ex, isEx := ci.X.(*ssa.Extract); isEx && ex.Tuple == sv && site != ssa.Instruction(decode) && types.TypeString(ex.Type(), nil) == "error" {
+					// a decoding helper returning (payload, error): its error result is the decoder's, or nil
+					viaHelper = true
+					h := decode.Parent()
+					for _, ret := range core.Returns(h) {
+						if ex.Index >= len(ret.Results) {
+							viaHelper = false
+							continue
+						}
+						for _, src := range phiSources(ret.Results[ex.Index]) {
+							if c, isC := src.V.(*ssa.Const); isC && c.IsNil() {
+								continue
+							}
+							if src.V != decode.Value() {
+								viaHelper = false
+							}
+						}
+					}
+				}
+				if ci.Kind != "nilcmp" || !(ci.X == sv || viaHelper || sameCellLoadOfCall(ci.X, site.(ssa.CallInstruction))) {
 					continue
 				}
 				errSucc := 0
@@ -954,12 +1014,33 @@ func c05(r *core.Run) {
 	// InternalError / ToError
 	if fn := p.Func("InternalError"); fn != nil {
 		good := false
-		for _, b := range fn.Blocks {
-			for _, in := range b.Instrs {
-				if st, ok := in.(*ssa.Store); ok {
-					if f, ok := core.FieldOf(st.Addr); ok && f.Struct == "Error" && f.Name == "Code" {
-						if s, ok := core.ConstString(st.Val); ok && s == stringConsts(p, "")["CodeInternalError"] {
-							good = true
+		// (the Error may be built by a constructor helper that is handed the code: newError(code, msg))
+		for _, h := range p.Helpers(fn) {
+			for _, b := range h.Blocks {
+				for _, in := range b.Instrs {
+					if st, ok := in.(*ssa.Store); ok {
+						if f, ok := core.FieldOf(st.Addr); ok && f.Struct == "Error" && f.Name == "Code" {
+							vals := []ssa.Value{st.Val}
+							if h != fn {
+								vals = nil
+								// what InternalError's own calls of the helper pass for the stored parameter
+								if prm, isP := st.Val.(*ssa.Parameter); isP {
+									for _, c := range core.Calls(fn) {
+										if c.Common().StaticCallee() == h {
+											for i, q := range h.Params {
+												if q == prm && i < len(c.Common().Args) {
+													vals = append(vals, c.Common().Args[i])
+												}
+											}
+										}
+									}
+								}
+							}
+							for _, v := range vals {
+								if s, ok := core.ConstString(v); ok && s == stringConsts(p, "")["CodeInternalError"] {
+									good = true
+								}
+							}
 						}
 					}
 				}
